@@ -54,6 +54,14 @@ def gen(rng, tier, idx):
             types[ty]["labels"][v] = ("%d:" % v + "y" * 600)[:n]
         if rx.chance(40):
             types[ty]["title"] = ("t%d:" % ty + "T" * 600)[:rx.choice([511, 510])]
+    if rx.chance(12):
+        # labels for values that need more than 32 bits (hashes, addresses, packed ids), some of them equal to a small
+        # labelled value modulo 2^32
+        ty = rx.choice(sorted(types))
+        for v in rx.sample([2 ** 31 + 5, 2 ** 32 + 7, 2 ** 32 + 1, 2 ** 40 + 1, 2 ** 62 + 3], rx.randint(1, 2)):
+            types[ty]["labels"][v] = "big %d" % (v % 1000)
+            if rx.chance(50):
+                types[ty]["labels"][v % 2 ** 32 or 9] = "small %d" % (v % 1000)
     # values over the whole 64-bit range (labels exist only for positive values: ovni_mark_label refuses the others)
     wide = rx.chance(15)
     WIDE = [-1, -3, -77, -2 ** 31, -2 ** 31 - 1, 2 ** 31, 2 ** 31 + 7, 2 ** 40 + 1, -2 ** 40, 2 ** 62, -2 ** 62]
